@@ -326,10 +326,7 @@ def d6_always_acts(chk: Check) -> None:
     found = False
     for n in walk_local(loop):
         if isinstance(n, ast.If) and isinstance(n.test, ast.Compare) and \
-                "len({})".format(par) in src(n.test) and ref in src(n.test) \
-                and any(isinstance(x, ast.Subscript) and
-                        isinstance(x.ctx, ast.Del) for s in n.body
-                        for x in ast.walk(s)):
+                "len({})".format(par) in src(n.test) and ref in src(n.test):
             found = True
             problems = []
             for ln in range(0, 5):
@@ -351,7 +348,9 @@ def d6_always_acts(chk: Check) -> None:
                 chk.ok("C04-D7", dn, n, "if " + src(n.test),
                        "evaluated for len 0..4 and every index -len..len+2")
     if not found:
-        raise AnalysisError("list deletion guard not found")
+        chk.fail("C04-D7", dn, loop, "list deletion bounds guard",
+                 "no test relating the item's index to len({}) guards the "
+                 "list deletion".format(par))
 
 
 def run(chk: Check) -> None:
